@@ -703,7 +703,7 @@ def _r6_serial(run, ev):
         else:
             run.holds("C01.R6", f, lnode, "all four children are enumerated (recursively) before the tile itself, once")
     # serial walk: callback only for non-leaf live tiles, set_data with the same liveness
-    f = project.fn(PYR + ".Pyramid._walk_serial")
+    f = common.splice(project, project.fn(PYR + ".Pyramid._walk_serial"))
     run.note_func(f)
     r = ev.run(f.node)
     loops = [(k, it, n) for k, it, n in r.loops if "_make_iter_reducer" in show(it)]
@@ -870,6 +870,20 @@ def _r8_subpyramid(run, ev):
         eq = boolalg.equiv(accepted, want)
     else:
         eq = False
+    if eq is not True and len(members) != 1:
+        # not the "ancestor set" form: look for a position on which the closure's value differs from the specification
+        # (levels 0..3; a counterexample is definite, agreement on the grid is not a proof)
+        cex = _position_filter_counterexample(project, outer, f, accepted, posp)
+        if cex is None:
+            run.undecided("C01.R8", f, None, "position filter %s is not the ancestor-set form; no counterexample among the positions of levels 0-3" % show(accepted)[:160],
+                          kind="position-filter")
+            return
+        if cex != "unknown":
+            run.violated("C01.R8", f, None, "position filter: for apex %s it %s position %s, but that position is %s the sub-pyramid's walk" % (
+                cex[0], "accepts" if cex[2] else "rejects", cex[1], "not on" if cex[2] else "on"), kind="position-filter")
+            return
+        run.undecided("C01.R8", f, None, "position filter %s cannot be evaluated" % show(accepted)[:200], kind="position-filter")
+        return
     if eq is True:
         run.holds("C01.R8", f, None, "position filter accepts positions below the apex level and the apex's ancestors")
     elif eq is None:
@@ -893,3 +907,39 @@ def _r8_subpyramid(run, ev):
         run.holds("C01.R8", f, None, "iteration stops at positions above the apex")
     else:
         run.violated("C01.R8", f, None, "reduction iterator no longer stops at positions above the sub-pyramid apex", kind="apex-stop")
+
+
+
+def _position_filter_counterexample(project, outer, inner, accepted, posp):
+    """Evaluate the closure's acceptance condition for every (apex, pos) of levels 0..3 / 0..4, with the factory's locals
+    substituted; -> None (agrees everywhere) | "unknown" | (apex, pos, accepted?)."""
+    oev = sym.make_evaluator(project, PYR, [PYR + ".pos_parent"])
+    ro = oev.run(outer.node)
+    nested = ro.nested.get(inner.name)
+    captured = dict(nested[1]) if nested else {}
+    apexp = ("sym", outer.params()[0])
+
+    def subst(t):
+        if isinstance(t, tuple):
+            if t and t[0] == "sym" and t[1] in captured and t != apexp and t != posp and captured[t[1]] != t:
+                return subst(captured[t[1]])
+            return tuple(subst(x) if isinstance(x, tuple) else x for x in t)
+        return t
+    cond = subst(accepted)
+    for an in range(0, 4):
+        for ax in range(2 ** an):
+            for ay in range(2 ** an):
+                for pn in range(0, 5):
+                    for px in range(2 ** pn):
+                        for py in range(2 ** pn):
+                            env = {("attr", apexp, "n"): an, ("attr", apexp, "x"): ax, ("attr", apexp, "y"): ay,
+                                   ("attr", posp, "n"): pn, ("attr", posp, "x"): px, ("attr", posp, "y"): py}
+                            got = teval(cond, env)
+                            if got is UNKNOWN:
+                                return "unknown"
+                            want = pn > an or (px == ax >> (an - pn) and py == ay >> (an - pn))
+                            if bool(got) != want:
+                                return ("Pos(%d,%d,%d)" % (an, ax, ay), "Pos(%d,%d,%d)" % (pn, px, py), bool(got))
+                            if pn >= 3 and (px > 2 or py > 2):
+                                break
+    return None
